@@ -68,10 +68,10 @@ ValueEq(a, b) ==
        /\ LET d == Small(SSub(x.exp, y.exp)) IN ~IsFar(d) /\ d = y.k - x.k
 
 (* |out - in| <= 1/2 * 10^q, where q is the position of the last retained significant
-   digit of out: the prec-th significant digit counted from out's leading digit (digits
-   written after it, e.g. the final 0 of 495.1 -> "500" at precision 2, are place holders,
-   not retained digits), but never below the last digit actually written.  An
-   implementation that keeps more digits than prec is therefore never rejected. *)
+   digit of out: the last digit written, except that trailing zeros beyond the prec-th
+   significant digit are place holders, not retained digits (495.1 -> "500" at precision 2
+   retains 5 and 0: q = 1).  A non-zero digit is always a retained digit, so keeping more
+   digits than prec is fine only if they are correct (14.9 -> "14" at precision 1 is not). *)
 WithinHalfUlp(in, prec, out) ==
   LET x == Canon(in)  y == Canon(out)
       r == Small(SSub(y.exp, x.exp))      \* exponent of out relative to in's
@@ -79,7 +79,9 @@ WithinHalfUlp(in, prec, out) ==
      ELSE IF IsFar(r) THEN FALSE
      ELSE LET qw == r + y.q               \* last written digit of out, relative scale
               qp == qw + Len(y.full) - prec \* prec-th significant digit of out
-              q == IF y.zero \/ qp < qw THEN qw ELSE qp
+              qnz == qw + TrailZ(y.full)    \* last non-zero digit of out
+              qm == IF qp < qnz THEN qp ELSE qnz
+              q == IF y.zero \/ qm < qw THEN qw ELSE qm
               kin == x.k
           IN IF y.zero
              THEN \* 2*|in| <= 10^q
